@@ -136,6 +136,8 @@ pub struct RepStats {
     pub churned: usize,
     pub calls: usize,
     pub failed: usize,
+    /// primers whose carve landed on the prepared block
+    pub primed: usize,
 }
 
 #[derive(Copy, Clone)]
@@ -292,6 +294,8 @@ pub struct Steady {
 }
 
 pub const STEADY_PRIMERS: [&str; 3] = ["none", "dv", "bin"];
+/// capacity callers reserve for the primer's scratch list
+pub const STEADY_PRIMER_TRIES: usize = 8192 + 130;
 
 pub fn steady_live(chunk: usize) -> usize {
     let n = 65536 / chunk;
@@ -328,32 +332,67 @@ fn steady_size(p: &Steady, r: &mut Prng, slack: usize) -> usize {
 /// One repetition: primer, fill, `steps` replacements, free everything. `sample` is called with the
 /// live set full: at steady steps 0, 64, 128 (warm-up) and then eight times spread over the steps,
 /// and at the end of the steps (the caller samples once more after everything was freed).
-pub unsafe fn steady_rep<H: Heap>(h: &mut H, p: &Steady, seed: u64, slots: &mut Vec<Slot>, st: &mut RepStats, sample: &mut dyn FnMut(&mut H)) {
+pub unsafe fn steady_rep<H: Heap>(h: &mut H, p: &Steady, seed: u64, slots: &mut Vec<Slot>, extra: &mut Vec<Slot>, st: &mut RepStats, sample: &mut dyn FnMut(&mut H)) {
     let mut r = Prng::new(seed);
     let slack = (seed % 9) as usize; // any request in (chunk-24, chunk-8] has the same chunk
-    let mut extra: [Slot; 3] = [Slot { p: core::ptr::null_mut(), size: 0, align: 8 }; 3];
     // ---- primer ----
     let rem = p.chunk as isize + p.delta;
     if p.primer != 0 && rem >= 32 {
         let carve_chunk = if p.primer == 1 { 32 } else { 272 };
         let a_size = req_of(rem as usize + carve_chunk);
-        let a = h.alloc(a_size, 8);
-        let g = h.alloc(24, 8); // keeps the freed block away from top
-        st.calls += 2;
-        if !a.is_null() && !g.is_null() {
-            h.free(a, a_size, 8);
-            let k_size = req_of(carve_chunk);
-            let k = h.alloc(k_size, 8); // carved out of the freed block: remainder = chunk + delta
+        // the block to be carved and, directly behind it, a guard that keeps it away from top and from
+        // other free chunks; leftovers in the heap may place the two apart: keep such pairs and retry
+        let mut a = core::ptr::null_mut();
+        let mut g = core::ptr::null_mut();
+        let mut null_seen = false;
+        for _ in 0..64 {
+            a = h.alloc(a_size, 8);
+            g = h.alloc(24, 8);
             st.calls += 2;
-            extra[0] = Slot { p: g, size: 24, align: 8 };
-            if k.is_null() {
-                st.failed += 1;
-            } else {
-                extra[1] = Slot { p: k, size: k_size, align: 8 };
+            if a.is_null() || g.is_null() {
+                null_seen = true;
+                break;
             }
-        } else {
-            st.failed += 1;
+            if g as usize == a as usize + chunk_of(a_size) {
+                break;
+            }
+            extra.push(Slot { p: a, size: a_size, align: 8 });
+            extra.push(Slot { p: g, size: 24, align: 8 });
+            a = core::ptr::null_mut();
+            g = core::ptr::null_mut();
         }
+        if !a.is_null() && !g.is_null() {
+            extra.push(Slot { p: g, size: 24, align: 8 });
+            h.free(a, a_size, 8);
+            st.calls += 1;
+            // Carve the front of the freed block: remainder = chunk + delta (it becomes dv for the small
+            // carve, a binned chunk for the large one). Whatever free space the heap prefers to the freed
+            // block (free chunks of the carve size, an older dv, smaller tree chunks) is served first; keep
+            // those and try again until the carve lands on the freed block (seen by its address only).
+            let k_size = req_of(carve_chunk);
+            let tries = if p.primer == 1 { 8192 } else { 64 };
+            for _ in 0..tries {
+                let k = h.alloc(k_size, 8);
+                st.calls += 1;
+                if k.is_null() {
+                    st.failed += 1;
+                    break;
+                }
+                extra.push(Slot { p: k, size: k_size, align: 8 });
+                if k == a {
+                    st.primed += 1;
+                    break;
+                }
+            }
+        } else if null_seen {
+            st.failed += 1;
+            for q in [a, g] {
+                if !q.is_null() {
+                    extra.push(Slot { p: q, size: if q == a { a_size } else { 24 }, align: 8 });
+                }
+            }
+        }
+        // (64 pairs that were never adjacent, e.g. with other threads allocating: unprimed, not a failure)
     }
     // ---- fill ----
     let mut live = 0usize;
@@ -425,10 +464,8 @@ pub unsafe fn steady_rep<H: Heap>(h: &mut H, p: &Steady, seed: u64, slots: &mut 
             st.calls += 1;
         }
     }
-    for e in extra.iter() {
-        if !e.p.is_null() {
-            h.free(e.p, e.size, e.align);
-            st.calls += 1;
-        }
+    while let Some(e) = extra.pop() {
+        h.free(e.p, e.size, e.align);
+        st.calls += 1;
     }
 }
